@@ -184,8 +184,18 @@ def c11(r):
     ok, _ = r.tlc_exhaustive("TxFlow.tla", "TxFlow_strict.cfg", workers=8, expect_ok=False)
     if ok:
         raise Inconclusive("TxFlow_strict.cfg no longer reproduces the C11-pop-before-save counterexample")
+    # refused datastore writes (a seen-marker that cannot be written, a production step that fails on a write)
+    r.tlc_exhaustive("TxFlow.tla", "TxFlow_wfail.cfg", workers=8)
     t = r.drive("txflow", name="txflow")
     r.tlc_validate("FlowTrace", t, ["C11."])
+    # step-level conformance: every record of reaper, sequencer queue and producer is an action of TxFlow.tla
+    def corrupt(ev):
+        if ev.get("ev") == "SeqNext" and ev.get("kind") == "batch" and ev.get("txs"):
+            ev = dict(ev)
+            ev["txs"] = ["not-in-the-batch"] + list(ev["txs"][1:])
+            return ev
+        return None
+    r.tlc_strict("TxFlowStrict", t, "bound", "Bound", to_const=lambda b: 1000000 if not b else b, selftest=corrupt)
 
 
 def c17(r):
